@@ -1,8 +1,9 @@
 """Contracts (string view): eval_structure_generation/file_import/parser.py -- the directory walk (C04, C08, C15).
 
 File-system model (assumed, pathlib / os): is_dir(p), child(p, q) (q in p.iterdir()), path_str, path_suffix, file text; resolve() is the
-identity on the absolute, symlink-free paths handed in. The module name of a path (`_get_module_name`) is an assumed function
-mod_name(root, p): its string construction is covered by the bounded C04 stand-in."""
+identity on the absolute, symlink-free paths handed in. The module name of a path (`_get_module_name`) enters these contracts as the function
+mod_name(root, p); what that function is (root name + '.' + dotted relative path without suffix) is proved on the real code in c_entry.py
+(Parser._get_module_name@str) and additionally covered by the bounded C04 stand-in."""
 import z3
 from pyvc import vals
 from pyvc.vals import V, vbool, vstr
@@ -65,7 +66,9 @@ c_str.alt = REG.add(Contract("FileFilter.is_excluded@path", module="pytestarch.e
                              params=dict(self="FileFilter", obj="Opaque[Path]"), returns="Bool", defn="ff_excluded(self, path_str(obj))", properties=["C08", "C04"]))
 REG.macro("p_excl", ["pa", "p"], "ff_excluded(pa._filter, path_str(p))")
 REG.add(Contract(f"{PA}._get_module_name", module=M_PA, kind="method", status="assumed", params=dict(self=PA, path="Opaque[Path]"), returns="Str",
-                 defn="mod_name(self._source_root, path)", note="dotted path relative to the source root, prefixed with the root's name; bounded by the C04 stand-in"))
+                 defn="mod_name(self._source_root, path)", note="dotted path relative to the source root, prefixed with the root's name: the string construction is PROVED on the real function under the key "
+                      "Parser._get_module_name@str (c_entry.py; linked by name through the definition ModNameDef of mod_name); assumed here: the paths met during a scan lie "
+                      "below the source root (no ValueError from relative_to); also exercised by the bounded C04 stand-in"))
 REG.add(Contract(f"{PA}._file_should_be_parsed", module=M_PA, kind="method", view="string", params=dict(self=PA, path="Opaque[Path]"), returns="Bool",
                  defn="path_suffix(path) == '.py' and not p_excl(self, path)", properties=["C04", "C08"]))
 REG.add(Contract(f"{PA}._parse_file", module=M_PA, kind="method", view="string", params=dict(self=PA, path="Opaque[Path]"), returns="Opt[NamedModule]",
